@@ -26,8 +26,8 @@ PROBES = ['frozen_copy_of_live_dataset', 'one_generator_shared_by_stages',
           'adversary_step_inside_an_epoch', 'prefetch_pool_variant_ran',
           'prefetch_single_variant_ran', 'random_stage_below_other_stages']
 BUDGET = {
-    'quick': {'families': 900, 'wall_cap': 240, 'shrink_s': 12},
-    'thorough': {'families': 40000, 'wall_cap': 3000, 'shrink_s': 30},
+    'quick': {'families': 5000, 'wall_cap': 420, 'shrink_s': 12},
+    'thorough': {'families': 50000, 'wall_cap': 5400, 'shrink_s': 30},
 }
 COMPONENTS = {
     'real': ['lazy_dataset.core random stages (ReShuffleDataset, LocalShuffleDataset, '
